@@ -182,3 +182,99 @@ class ParseInstant(Obligation):
 def s64(x): return x-(1<<64) if x>>63 else x
 def s32(x): return x-(1<<32) if x>>31 else x
 from mirsym.runner import Obligation
+
+class ExpiryThroughConstructors(Expiry):
+    """the layout that is verified was not put together by the harness but by the crate's own construction paths, from MIR:
+    `LayoutMetadata::new`, `LayoutMetadataBuilder`, or the decoder on a document whose `expires` text carries a free offset and
+    free fractional seconds.  The expiry that counts is the instant the CALLER / the DOCUMENT states."""
+    name='C06.expiry_through_constructors'
+    def __init__(self,**kw):
+        Expiry.__init__(self,**kw); self.name='C06.expiry_through_constructors'
+        self.bounds={'construction':'LayoutMetadata::new(expires, ..) / LayoutMetadataBuilder::new().expires(e).readme(..).build() / decoder (tree channel) on the document of the layout with `expires` = an RFC 3339 text (ghost string) with free wall-clock seconds, free nanoseconds < 1e9 and a free whole-minute offset',
+                     'expiry_instant':'any (i64 seconds within chrono range for the decoder path, u32 nanoseconds < 1e9)','verification_instant':'any','layout':'validly signed, 0 steps'}
+        self.witnesses=['ok_unexpired','err_expired']
+    def setup(self,eng,tier):
+        Expiry.setup(self,eng,tier)
+        self.f_new=eng.find_method(None,'LayoutMetadata','new')
+        self.fb_new=eng.find_method(None,'LayoutMetadataBuilder','new'); self.fb_exp=eng.find_method(None,'LayoutMetadataBuilder','expires'); self.fb_build=eng.find_method(None,'LayoutMetadataBuilder','build')
+    def entry(self,eng):
+        body=self.entry_body; b=self.b
+        def go(run,args):
+            from mirsym import models_de as md, models_serde as ms
+            from mirsym.models_json import jstr
+            mbr=args[0]; mb=deref(mbr); lay=deref(b.get(mb,'metadata')).f[0]
+            via=run.ghost['via']; exp=run.ghost['doc_exp']
+            if via=='new':
+                new=eng.call_fn(run,self.f_new,[copy_val(exp),b.get(lay,'readme'),b.get(lay,'keys'),b.get(lay,'steps'),b.get(lay,'inspect')])
+            elif via=='builder':
+                x=eng.call_fn(run,self.fb_new,[]); x=eng.call_fn(run,self.fb_exp,[x,copy_val(exp)])
+                r=eng.call_fn(run,self.fb_build,[x]); new=deref(r).f[0]
+                run.ghost['now_calls']=0          # the builder read the clock for its default expiry; the verification reads it afresh
+            else:
+                tree=ms.ser_value(eng,run,lay)
+                off=run.ghost['doc_off']
+                loc=exp.f[0].z()+z3.SignExt(32,off)
+                txt=StringO(list(b'<rfc3339>'),True,{'kind':'rfc3339','local_secs':loc,'nanos':exp.f[1].z(),'offset':off})
+                ents=deref(tree.f[0]).e
+                for ent in ents:
+                    if bytes(deref(ent[0]).b)==b'expires': ent[1]=jstr(txt)
+                try: new=md.de_type(eng,run,'LayoutMetadata',tree,'tree')
+                except md.DeFail as d: raise Unsupported('the decoder rejects the layout document: '+str(getattr(d,'msg',d))[:80])
+            mb2=b.metablock(b.wrap_layout(new),deref(b.get(mb,'signatures')).items)
+            return eng.call_fn(run,body,[Ref(Cell(mb2))]+list(args[1:]))
+        return go
+    def mk_args(self,run):
+        b=self.b; OWN=0
+        via=['new','builder','parser'][run.pick(3,'via')]
+        exp=sym_instant(run,b,'expires'); now0=sym_instant(run,b,'now0'); now1=sym_instant(run,b,'now1')
+        run.add(z3.Not(instant_lt(now1,now0)))
+        off=z3.BitVecVal(0,32)
+        if via=='parser':
+            om=z3.BitVec('off_min',32); run.add(om>-1440,om<1440); off=om*60
+            run.add(exp.f[0].z()>-(1<<40),exp.f[0].z()<(1<<40))
+        if via=='builder': run.add(now0.f[0].z()>-(1<<40),now0.f[0].z()<(1<<40))      # LayoutMetadataBuilder::new() adds 365 days to the clock reading
+        ld=LayoutD([],[],expires=exp)
+        lb=BlockD('layout',ld,[SigD(OWN,OWN)]); caller=[(OWN,OWN)]
+        args=self.install(run,lb,caller,{():[]})
+        run.ghost['nows']=[now0,now1]; run.ghost['now_calls']=0; run.ghost['via']=via; run.ghost['doc_exp']=exp; run.ghost['doc_off']=off
+        return args,{'lb':lb,'caller':caller,'dirs':{():[]},'exp':exp,'now0':now0,'now1':now1,'inner_exp':None,'via':via}
+    def check(self,run,out,g):
+        oc=outcome_of(out); rec=self.new_rec(oc); rec['obl']=1
+        exp,now=g['exp'],g['now0']
+        es,en,ns,nn=exp.f[0].z(),exp.f[1].z(),now.f[0].z(),now.f[1].z()
+        def mk(m):
+            mv=lambda t: model_value(m,t)
+            sg=lambda x: x-(1<<64) if x>>63 else x
+            E,N=sg(mv(es)),sg(mv(ns))
+            sc={'kind':'expiry_via','via':g['via']}
+            if E==N: sc['same_second']={'exp_ms':mv(en)//1000000,'now_ms':mv(nn)//1000000}
+            else: sc['expires_in_ms']=max(-400000000,min(400000000,(E-N)*1000))
+            return sc
+        if oc=='panic':
+            r,m=run.check_sat(z3.BoolVal(True)); rec['viol']={'kind':'panic','known_key':None,'scenario':mk(m),'predicted':'panic','what':'construction or verification panics: '+str(out[1])[:200]}; return rec
+        expired=instant_lt(exp,now)
+        # counterexamples the real clock can reproduce come first: a clear distance in seconds, or both instants inside one second
+        # with >= 150 ms between them (whole milliseconds)
+        clear=z3.Or(es+100<ns,ns+100<es)
+        ms=lambda t: z3.URem(t,1000000)==0
+        inside=z3.And(es==ns,ms(en),ms(nn),z3.ULE(nn,800000000),z3.Or(z3.UGE(nn-en,150000000),z3.UGE(en-nn,150000000)))
+        def find(cond):
+            for pref in (clear,inside,z3.BoolVal(True)):
+                r,m=run.check_sat(z3.And(cond,pref,es>0,es<4000000000,ns>0,ns<4000000000))
+                if r==z3.sat: return m
+            r,m=run.check_sat(cond)
+            return m if r==z3.sat else None
+        if oc=='ok':
+            m=find(expired)
+            if m is not None:
+                rec['viol']={'kind':'expired_layout_accepted','known_key':None,'scenario':mk(m),'predicted':'ok','what':'a layout built through %s is accepted although the expiry instant the caller / the document states is earlier than the moment of verification'%g['via']}; return rec
+            self.wit(run,rec,'ok_unexpired')
+        else:
+            m=find(z3.Not(expired))
+            if m is not None:
+                rec['viol']={'kind':'unexpired_layout_rejected','known_key':None,'scenario':mk(m),'predicted':{'not':'ok'},'what':'a layout built through %s is rejected although nothing is wrong and it is unexpired'%g['via']}; return rec
+            self.wit(run,rec,'err_expired')
+        for pref in (inside,clear):
+            r,m=run.check_sat(z3.And(pref,es>0,es<4000000000,ns>0,ns<4000000000))
+            if r==z3.sat: rec['sample']={'scenario':mk(m),'expect':'ok' if oc=='ok' else 'err'}; break
+        return rec
